@@ -48,7 +48,7 @@ struct ArchMix {
       decs[(size_t)a].push_back(std::move(d));
     }
     run.count("replica_sets"); run.count("levels", nlev);
-    pos = 0; expert = OPUS_FRAMESIZE_ARG;
+    pos = 0; expert = OPUS_FRAMESIZE_ARG; avx2_state_diverged = false;
   }
   void op_ctl(const Op &op) {
     if (encs.empty()) return;
@@ -82,7 +82,10 @@ struct ArchMix {
         // the AVX2 noise-shaping quantiser deliberately does not reproduce an overflow of the C code ("more correct, but it won't overflow
         // like the C code in some rare cases", silk/x86/NSQ_del_dec_avx2.c): only the AVX2 replica of a SILK / hybrid packet differs
         bool others_agree = true; for (size_t b2 = 1; b2 < a; b2++) if (pk[b2] != pk[0]) others_agree = false;
-        bool avx2_silk = loud && a == 4 && a + 1 == encs.size() && others_agree && !pk[0].empty() && toc_mode(pk[0][0]) != 2;   // (multistream: the TOC of the first stream)
+        bool avx2_silk = loud && a == 4 && a + 1 == encs.size() && others_agree && !pk[0].empty() && (toc_mode(pk[0][0]) != 2 || avx2_state_diverged);   // (multistream: the TOC of the first stream)
+        // once the AVX2 replica's SILK state has diverged through that finding, its later packets (including the CELT-only packets after a
+        // mode switch, whose prefill / redundancy comes from the SILK layer) follow from the same divergence and cannot be judged separately
+        if (avx2_silk) avx2_state_diverged = true;
         if (getenv("OPSIM_CALIB")) fprintf(stderr, "C15AVX2 level=%zu others_agree=%d fam=%d amp=%lld mode=%d loud=%d\n", a, (int)others_agree, src.fam, (long long)src.amp, pk[0].empty() ? -1 : toc_mode(pk[0][0]), (int)loud);
         REPORT(run, prop, avx2_silk ? "fixed_point_packets_differ_avx2_only_silk_layer_harsh_input" : "fixed_point_packets_differ_across_levels", "level %zu: len %d vs %d, first difference at byte %zu, range %08x vs %08x (toc %02x frame %d; levels below it agree with level 0)", a, r, r0, k, rng[a], rng[0], pk[0].empty() ? 0 : pk[0][0], frame);
       }
@@ -129,7 +132,7 @@ struct ArchMix {
     if (how != 0) { concealed_recently = true; run.count(how == 1 ? "plc_steps" : "fec_steps"); run.fired = true; }
     else if (concealed_recently) { if (++clean_since >= 50) { concealed_recently = false; clean_since = 0; } }
   }
-  int clean_since = 0;
+  int clean_since = 0; bool avx2_state_diverged = false;
 
   void go(const Plan &p) {
     for (size_t i = 0; i < p.ops.size(); i++) {
